@@ -59,9 +59,12 @@ def handle (d : DS) (line : String) : DS × String :=
   | ["pointsend", r, hop, b] =>
     match r.toNat?, hop.toNat?, b.toNat? with
     | some r, some hop, some b =>
-      let (s', sent) := flushFront (get d r)
-      if sent != [(hop, b)] then (d, s!"mismatch pointsend model-front={showSends sent} real={hop}:{b}")
-      else (set d r s', "ok")
+      -- a flush point may send the buffer of any buffered destination, whole (`flushHop`)
+      match flushHop (get d r) hop with
+      | none => (d, s!"mismatch pointsend no-buffer-for-hop={hop} model-queue={showSends (get d r).q}")
+      | some (s', sent) =>
+        if sent != [(hop, b)] then (d, s!"mismatch pointsend model={showSends sent} real={hop}:{b}")
+        else (set d r s', "ok")
     | _, _, _ => (d, "bad-op")
   | ["capend", r, u, p] =>
     -- flush_to_capacity has finished: the loop is disabled and both counters equal the real ones
